@@ -61,7 +61,8 @@ OwnFile(f, repr, ext) ==
     hdr |-> HdrOf(f, WDim(f, ext), OwnLabels(f, ext), [k \in 1 .. WDim(f, ext) |-> UnitTok(f.unit)]),
     check |-> IF repr = "txt" THEN "none" ELSE "ok", bit |-> -1,
     data |-> DataOf(f, ext), side |-> f.subs, cut |-> NoCut,
-    lj |-> f.nv > 1]                      \* labels are judged for vector fields
+    lj |-> f.nv > 1,                      \* labels are judged for vector fields
+    over |-> FALSE]                       \* written onto a path that held another field's file and side-car
 
 (* an independent writer (OVF 1.0: three components, big-endian binary, valueunit;      *)
 (* OVF 2.0: label styles  plain `mx`, prefixed `Magnetization_mx` + a single unit entry, *)
@@ -79,7 +80,7 @@ ForeignFile(f, ver, repr, style) ==
     check |-> IF repr = "txt" THEN "none" ELSE "ok", bit |-> -1,
     data |-> DataOf(f, FALSE), side |-> <<>>, cut |-> NoCut,
     (* a foreign `m_x` is turned into `x` on purpose; only plain words are the writer's labels as they stand *)
-    lj |-> ver = 2 /\ style = "plain" /\ f.nv > 1 /\ f.lclass \in {"plain", "multi"}]
+    lj |-> ver = 2 /\ style = "plain" /\ f.nv > 1 /\ f.lclass \in {"plain", "multi"}, over |-> FALSE]
 
 (* ---- damage ------------------------------------------------------------------------ *)
 Binary(fl)   == fl.repr # "txt"
@@ -189,6 +190,14 @@ Write == \E repr \in Reprs, ext \in BOOLEAN :
             /\ act' = <<"write", repr, ext>>
             /\ obs' = [st |-> "written"]
             /\ UNCHANGED fld
+(* the same call on a path that already holds the file AND the side-car of another field: *)
+(* the new file and its side-car describe the new field only                              *)
+WriteOver == \E repr \in {"bin8", "txt"} :
+            /\ act[1] = "new"
+            /\ file' = [OwnFile(fld, repr, FALSE) EXCEPT !.over = TRUE]
+            /\ act' = <<"writeover", repr, FALSE>>
+            /\ obs' = [st |-> "written"]
+            /\ UNCHANGED fld
 ForeignWrite == \E ver \in {1, 2}, repr \in Reprs, style \in Styles :
             /\ act[1] = "new"
             /\ ver = 1 => (fld.nv = 3 /\ style = "plain")
@@ -211,12 +220,12 @@ CorruptCheck == /\ act[1] \in {"write", "foreign"} /\ fld \in FaultFields
             /\ obs' = [st |-> "damaged"]
             /\ UNCHANGED fld
 (* Field.from_file(name) *)
-Read == /\ act[1] \in {"write", "foreign", "truncate", "corrupt"}
+Read == /\ act[1] \in {"write", "writeover", "foreign", "truncate", "corrupt"}
         /\ act' = <<"read">>
         /\ obs' = ReadResult(file)
         /\ UNCHANGED <<fld, file>>
 
-Next == Write \/ ForeignWrite \/ Truncate \/ CorruptCheck \/ Read
+Next == Write \/ WriteOver \/ ForeignWrite \/ Truncate \/ CorruptCheck \/ Read
 Spec == Init /\ [][Next]_vars
 
 (* ---- invariants -------------------------------------------------------------------- *)
@@ -230,7 +239,7 @@ TypeOK == /\ FieldOK(fld) /\ FaultFields \subseteq Fields
 Intact == file.by[1] # "none" /\ file.cut = NoCut /\ file.check # "bad"
 
 C09_RoundTrip == (act[1] = "read" /\ file.by[1] = "own" /\ Intact) => RoundTripOK(fld, file.by[2], file.by[3], obs)
-C09_FileIsOVF2 == act[1] = "write" => FileIsOVF2(fld, act[2], act[3], file)
+C09_FileIsOVF2 == act[1] \in {"write", "writeover"} => FileIsOVF2(fld, act[2], act[3], file)
 C09_ReadsForeign == (act[1] = "read" /\ file.by[1] = "foreign" /\ Intact)
                        => ForeignOK(fld, file.by[2], file.by[3], file.by[4], obs)
 C09_DamagedBinaryRejected == act[1] = "read" => DamagedRejected(file, obs)
